@@ -2173,6 +2173,54 @@ def gen_C15_big(rng):
     return "\n".join(L) + "\n"
 
 
+def gen_C10_evbool(rng):
+    """copies of total EV+ functions (no +infinity) with shared sub-diagrams reached under
+    different accumulated edge values -- linear functions a*x1 + b*x2 (+ c*x3), and the
+    same function shifted by a constant (same nodes, other root value) -- into boolean and
+    integer multi-terminal forests: non-zero to true depends on the WHOLE path sum"""
+    ctx = Ctx(rng)
+    ctx.emit("init " + rand_ctopts(rng))
+    k = rng.choice([2, 2, 3])
+    d = Domain("D", [rng.choice([2, 3]) for _ in range(k)])
+    ctx.emit(d.decl())
+    ctx.doms.append(d)
+    E = Forest("E", d, False, "int", "evp", rng.choice(RULES_SET), rand_opts(rng))
+    B = Forest("B", d, False, "bool", "mt", rng.choice(RULES_SET), rand_opts(rng))
+    I = Forest("I", d, False, "int", "mt", rng.choice(RULES_SET), rand_opts(rng))
+    for f in (E, B, I):
+        ctx.emit(f.decl())
+    ctx.forests = [E, B, I]
+    import itertools
+    for rnd in range(rng.randint(1, 3)):
+        coef = [rng.choice([0, 1, 1, 2, 3]) for _ in range(k)]
+        if not any(coef):
+            coef[0] = 1
+        nm = "f%d" % rnd
+        parts = ["coll", nm, "E", "min", "inf"]
+        for asg in itertools.product(*[range(z) for z in d.sizes]):
+            v = sum(c * x for c, x in zip(coef, asg))
+            parts += [";"] + [str(x) for x in asg] + ["=>", str(v)]
+        ctx.emit(" ".join(parts))
+        ctx.edges[nm] = E
+        kc = "k%d" % rnd
+        ctx.emit("const %s E %d" % (kc, rng.choice([1, 3, 5])))
+        ctx.edges[kc] = E
+        h = "h%d" % rnd
+        ctx.emit("apply %s E plus %s %s" % (h, nm, kc))
+        ctx.edges[h] = E
+        order = [nm, h]
+        if rng.random() < 0.5:
+            order.reverse()
+        for src in order:
+            for tgt in ([B, I] if rng.random() < 0.7 else [B]):
+                c = ctx.fresh()
+                ctx.emit("unary %s %s copy %s" % (c, tgt.name, src))
+                ctx.edges[c] = tgt
+        ctx.emit("show %s" % nm)
+    ctx.emit("audit B")
+    return ctx.text()
+
+
 def gen_C10_idx(rng):
     """copies out of an index-set forest: into EV+ forests of both rules (ranks kept,
     non-members stay +infinity) and from there on"""
